@@ -163,6 +163,7 @@ type Machine struct {
 	lastHexID      string
 	bigFloats      map[*Obj]*big.Float      // concrete big.Float values by object (zzbigfloat.go)
 	syncMaps       map[string]*syncMapState // sync.Map contents by map object (zzsync.go)
+	syncPools      map[string]*syncPoolState // sync.Pool contents by pool object (zzsync.go)
 	servedHandler  Value                    // handler given to http.ListenAndServe (zzhttp.go)
 	nextRecID      *Term                    // recovery id the next modelled crypto.Sign produces (harness request.verifNextRecID)
 	reflCalls      int
